@@ -171,11 +171,13 @@ Proof. exact ex_d_lok. Qed.
 (* The lookup clause with a DECIDABLE hypothesis and nothing else: names_ok root
    = true (coq/Ports/NamesModel.v; evaluated on every generated tree by the
    tie) - names of the documented shape (sub-tree names of one or more
-   components; literal text may hold digits) and no key of a port - its path
-   part with each '#N' and each digit run of its literal text replaced by '#' -
-   a prefix of a sibling's key: "no sibling's name is a prefix of another's".
-   lok / lookup_disjoint follow (C09_names_ok_sound).  The digit-alias witness
-   above has two equal keys (a#b).  No hypothesis about type strings: apropos
+   components; literal text may hold digits) and no two ports of a table
+   CLASH (NamesModel.clashb): reading both path parts in step - literal
+   characters must agree, '#N' against '#M' goes on behind both - one name ends
+   (x / xy: "a sibling's name is a prefix of another's") or a '#N' meets a
+   literal digit.  lok / lookup_disjoint follow (C09_names_ok_sound).  The
+   digit-alias witness above is such a clash ('#4' against the literal 0 of
+   a01b).  No hypothesis about type strings: apropos
    does not look at them (every reported leaf admits some type string,
    names_ok_leaf_admits). *)
 Theorem C18_lookup : forall root id a,
@@ -185,17 +187,16 @@ Theorem C18_lookup : forall root id a,
   apropos (map render_port root) a = AFound id.
 Proof. exact walk_lookup_names. Qed.
 
-(* names_ok with digits in literal text: { "osc1a", "v2#3/x7:i", "p10/q/" -> { "b2", "c" } }
-   is accepted and its walked addresses are found; { "a1", "a2" } is rejected (both keys
-   are a#) *)
+(* names_ok with digits in literal text: { "osc1a", "osc2a", "v2#3/x7:i", "p10/q/" -> { "b2", "c" } }
+   is accepted and its walked addresses are found; { "a1", "a12" } is rejected (a prefix) *)
 Theorem C18_lookup_digits_nonvacuous :
   names_ok ex_digits = true /\
-  names_ok [SPort [Lit [97; 49]] [] None None; SPort [Lit [97; 50]] [] None None] = false /\
-  (exists out b, walk None (map render_port ex_digits) [] = WOk out b /\ length out = 6%nat /\
-                 In ([1%nat], [47; 118; 50; 50; 47; 120; 55]) out /\
-                 In ([2%nat; 0%nat], [47; 112; 49; 48; 47; 113; 47; 98; 50]) out) /\
-  apropos (map render_port ex_digits) [47; 118; 50; 50; 47; 120; 55] = AFound [1%nat] /\
-  apropos (map render_port ex_digits) [47; 112; 49; 48; 47; 113; 47; 98; 50] = AFound [2%nat; 0%nat].
+  names_ok [SPort [Lit [97; 49]] [] None None; SPort [Lit [97; 49; 50]] [] None None] = false /\
+  (exists out b, walk None (map render_port ex_digits) [] = WOk out b /\ length out = 7%nat /\
+                 In ([2%nat], [47; 118; 50; 50; 47; 120; 55]) out /\
+                 In ([3%nat; 0%nat], [47; 112; 49; 48; 47; 113; 47; 98; 50]) out) /\
+  apropos (map render_port ex_digits) [47; 118; 50; 50; 47; 120; 55] = AFound [2%nat] /\
+  apropos (map render_port ex_digits) [47; 112; 49; 48; 47; 113; 47; 98; 50] = AFound [3%nat; 0%nat].
 Proof. exact ex_digits_ok. Qed.
 
 (* observation, outside the quantifier (names are non-empty): an empty port name
